@@ -315,7 +315,39 @@ func (w *vpWorld) Apply(obj client.Object) interface{} {
 	if e := w.k8s.Get(ctx, client.ObjectKeyFromObject(obj), got); e != nil {
 		panic(e)
 	}
+	vpRestoreEmpty(reflect.ValueOf(obj), reflect.ValueOf(got))
 	return &events.UpsertEvent{Resource: got}
+}
+
+// vpRestoreEmpty: the fake client stores typed objects re-encoded with omitempty, which turns an empty list into an absent one.
+// The API server stores the JSON the user sent, and an informer decodes "field: []" into an empty, non-nil slice: where the
+// object as written has an empty non-nil slice and the stored one has nil, the empty slice is put back.
+func vpRestoreEmpty(orig, got reflect.Value) {
+	if orig.Kind() != got.Kind() {
+		return
+	}
+	switch orig.Kind() {
+	case reflect.Ptr, reflect.Interface:
+		if !orig.IsNil() && !got.IsNil() {
+			vpRestoreEmpty(orig.Elem(), got.Elem())
+		}
+	case reflect.Struct:
+		for i := 0; i < orig.NumField(); i++ {
+			if got.Field(i).CanSet() || got.Field(i).Kind() == reflect.Ptr || got.Field(i).Kind() == reflect.Struct || got.Field(i).Kind() == reflect.Slice {
+				vpRestoreEmpty(orig.Field(i), got.Field(i))
+			}
+		}
+	case reflect.Slice:
+		if !orig.IsNil() && orig.Len() == 0 && got.IsNil() && got.CanSet() {
+			got.Set(reflect.MakeSlice(orig.Type(), 0, 0))
+			return
+		}
+		if orig.Len() == got.Len() {
+			for i := 0; i < orig.Len(); i++ {
+				vpRestoreEmpty(orig.Index(i), got.Index(i))
+			}
+		}
+	}
 }
 
 // Remove deletes the object from the fake cluster and returns the delete event (bare registered type +
@@ -411,7 +443,9 @@ func vpSortedKeys(m map[string]string) []string {
 
 var errVpReload = errors.New("verif: scripted reload failure")
 
-func clientKey(ns, name string) types.NamespacedName { return types.NamespacedName{Namespace: ns, Name: name} }
+func clientKey(ns, name string) types.NamespacedName {
+	return types.NamespacedName{Namespace: ns, Name: name}
+}
 
 func upsertOf(obj client.Object) interface{} { return &events.UpsertEvent{Resource: obj} }
 
